@@ -777,6 +777,7 @@ TYPES = {
     "hap_recv": ("check_hap_recv", "tab * option (cipher N) * bytes * list N * list bytes * (N * N + exn)"),
     "comp_recv": ("check_comp_recv", "tab * list N * option (cipher N) * bytes * list N * list (N * bytes) * N * N"),
     "mrp_recv": ("check_mrp_recv", "tab * option (cipher N) * bytes * list N * list bytes * N * N"),
+    "comp_bound": ("check_comp_bound", "bool * N * N * option bytes"),
     "variant": ("check_variant", "N * bytes"),
     "read_variant": ("check_read_variant", "bytes * option (N * N)"),
 }
@@ -1160,6 +1161,69 @@ def cipher_cases(ctx, batch):
         ctx.case(("read_variant", b.hex()), nontrivial=r != "None")
         ctx.count("varint")
     batch.add([], cases, 3000)
+
+
+# --------------------------------------------------------------------------- Companion frame bound
+# Sends AT the 24-bit length limit through the real CompanionConnection.send, between small
+# frames.  Oracle: a payload that does not fit is refused by an ordinary exception BEFORE anything
+# is written (and the connection stays usable: later frames are recovered by the peer); a frame
+# that is written is recovered exactly by the peer and its header is type byte + 24-bit length of
+# what follows.  The model is compared on sizes only (comp_header_of_size): no big literals.
+
+def comp_bound_cases(ctx, batch):
+    from pyatv.protocols.companion.connection import FrameType
+    lim = 1 << 24
+    plans = [(True, [lim - 17, lim - 16, lim - 15, 2 * lim + 5]), (False, [lim - 1, lim, lim + 1])]
+    block = bytes(range(256)) * 4096
+    cases = []
+    for enc, sizes in plans:
+        for n in sizes:
+            real = Real("comp", 515, enc)
+            peer = Peer("comp", 515)
+            big = (block * (n // len(block) + 1))[:n]
+            frames = [(8, b"before"), (8, big), (7, b"after-1"), (1, b""), (9, b"after-2")]
+            written, accepted, refused = [], [], None
+            for ft, d in frames:
+                n0 = len(real.tr.out)
+                try:
+                    out = real.send((ft, d))
+                except Exception as ex:  # noqa
+                    out = b"".join(real.tr.out[n0:])
+                    if len(d) == n:
+                        refused = type(ex).__name__
+                    rep = {"kind": "compbound", "enc": enc, "size": len(d)}
+                    if out:
+                        ctx.violation("C07:companion:partial-write-on-refusal", "send of %d bytes raised %s after writing %d bytes" % (len(d), type(ex).__name__, len(out)), rep)
+                    if len(d) != n or len(d) + (16 if enc else 0) < lim:
+                        ctx.violation("C07:companion:send-raises", "send of a %d byte payload raised %s" % (len(d), type(ex).__name__), rep)
+                    continue
+                written.append(out)
+                accepted.append([ft, d])
+            rep = {"kind": "compbound", "enc": enc, "size": n}
+            hdr = None
+            for out, (ft, d) in zip(written, accepted):
+                if len(d) == n:
+                    hdr = out[:4]
+                if out[0] != ft or int.from_bytes(out[1:4], "big") != len(out) - 4:
+                    ctx.violation("C07:companion:frame-too-large" if len(out) - 4 >= lim else "C07:companion:header-mismatch",
+                                  "send of a %d byte payload (type %d) wrote a frame of %d bytes after the header %s: the header must be the type byte "
+                                  "and the 24-bit length of what follows (at most 2^24-1)" % (len(d), ft, len(out) - 4, out[:4].hex()), rep)
+                    break
+            try:
+                got = peer.comp_open(b"".join(written), enc)
+            except Exception as ex:  # noqa
+                got = "%s: %s" % (type(ex).__name__, ex)
+            if got != accepted:
+                ctx.violation("C07:companion:peer-cannot-recover",
+                              "frames [6 bytes, %d bytes, 7, 0, 7 bytes] on an %s connection: the peer does not recover the frames that were written (%s)"
+                              % (n, "encrypted" if enc else "unencrypted", got if isinstance(got, str) else "%d of %d frames / content differs" % (len(got), len(accepted))), rep)
+            tagged = enc and n > 0
+            cases.append(("comp_bound", "(%s, 8%%N, %d%%N, %s)" % (common.cbool(tagged), n, "None" if refused else "(Some %s)" % lit(hdr or b"")),
+                          {"scenario": rep, "refused": refused}))
+            ctx.case(("compbound", enc, n), nontrivial=True, sample={"companion_payload": n, "encrypted": enc, "refused": refused, "header": (hdr or b"").hex()})
+            ctx.count("companion-frame-bound")
+            del big, written, accepted
+    batch.add([], cases, 500)
 
 
 # --------------------------------------------------------------------------- application channels
@@ -1861,6 +1925,7 @@ def run(ctx):
         do_recv(ctx, batch, sc, idx)
         idx += 1
     long_oracle(ctx)
+    comp_bound_cases(ctx, batch)
     app_channel_cases(ctx)
     for which in SESSIONS:
         judge_session(ctx, run_session(which))
@@ -1883,7 +1948,7 @@ def run(ctx):
         "MRP: the model stops at the byte string handed to protobuf.ParseFromString; protobuf parsing is outside",
         "explicit-nonce encryption (pairing messages, fixed nonces under one-time session keys) is modelled and compared but is outside the freshness theorem",
         "data-stream / event channel message framing above the HAP session (channels.py) is judged by the oracle only (bursts re-framed at 1024 bytes); it is not part of the Coq model (C02 owns that layer)",
-        "Companion payloads of 2^24-16 bytes or more (OverflowError in send) are modelled but not exercised (16 MiB inputs)",
+        "Companion payloads at the 2^24 limit are sent through the real send() and judged by the peer; the model is compared on the size-dependent part only (comp_header_of_size, tied to comp_send by C07_comp_frame_bound)",
     ]
 
 
@@ -1906,6 +1971,12 @@ def replay(ctx, path):
                 var["lens"][:8], var.get("tamper"), [x if not isinstance(x, bytes) else x.hex()[:40] for x in (obs["got"] if sc["chan"] not in ("comp",) else [[a, b.hex()[:40]] for a, b in obs["got"]])][:8],
                 obs["exc"], obs["counter"], obs["residual"]))
             viol += v
+    elif sc.get("kind") == "compbound":
+        class B:
+            def add(self, *a):
+                pass
+        comp_bound_cases(ctx, B())
+        viol = [(v["key"], v["what"]) for v in ctx.violations if v["replay"].get("size") == sc.get("size") and v["replay"].get("enc") == sc.get("enc")]
     elif sc.get("kind") == "appchan":
         app_channel_cases(ctx)
         viol = [(v["key"], v["what"]) for v in ctx.violations if v["replay"].get("chan") == sc.get("chan")]
